@@ -20,9 +20,11 @@ ASSUMPTIONS = [
     "dt in [1e-4, 1]; records longer than scipy's default filtfilt edge padding 3*(2*order+1) (shorter ones are rejected by "
     "scipy itself)",
     "'away from the ends of a record much longer than the longest cut-off period': the sinusoid record holds 60..90 periods of "
-    "the lowest cut-off (>= 150 samples) and the middle third is compared; tolerance 2e-3 of the sinusoid amplitude (measured: edge "
-    "transients after >= 20 periods <= 1e-4, worst for an order-4 band of ratio 1.5 near Nyquist; rounding error of a design that "
-    "passes the conditioning guard <= 0.8*u*kappa <= 2e-4)",
+    "the lowest cut-off (>= 150 samples) and the middle third is compared; tolerance, relative to the sinusoid amplitude: "
+    "min(2e-3, 1e-8 + 40*(u*kappa + r_max^(n/3))) with kappa the conditioning of the (b, a) denominator (rounding of the coefficients, "
+    "first-order bound) and r_max the largest pole radius of the design (what is left of the edge transients n/3 samples into the "
+    "record); measured on the pinned tree over 8000 designs: error <= 4.04*(u*kappa + r_max^(n/3)); 90 % of the designs are checked "
+    "to better than 1e-6 (the first version used the flat 2e-3 for every design and let a 2e-4 gain error through)",
     "sinusoid frequencies: 0 < f <= 0.99 of Nyquist, placed by inverting the analytic gain at a drawn target gain in the pass "
     "(g >= 0.9), transition or stop (g <= 0.01, target >= 1e-6) band; the class is decided from the gain at the frequency actually used",
     "conditioning guard (known finding C17-KF1): a design counts as well conditioned when (A) the roots (numpy.roots) of scipy's "
@@ -55,7 +57,9 @@ EPS = np.finfo(float).eps
 U = EPS / 2
 LD = np.longdouble
 
-GAIN_TOL = 2e-3
+GAIN_TOL = 2e-3        # cap
+GAIN_FLOOR = 1e-8
+GAIN_FACTOR = 40.0     # observed max of error / (u*kappa + rmax^lo) over 8000 designs on the pinned tree: 4.04
 GUARD_POLE = 1e-3      # DESIGN: |root - p| <= 1e-3 * (1 - |p|)
 GUARD_KAPPA = 2.5e-4   # added: u * kappa
 WN_LO, WN_HI, MIN_RATIO = 0.002, 0.8, 1.5
@@ -137,7 +141,7 @@ def _conditioning_wn(order, wn):
         amag = amag * np.abs(ez - pk)
     kappa = float(np.sum(np.abs(a)) / np.min(amag))
     ok = bool(pole_disp <= GUARD_POLE and U * kappa <= GUARD_KAPPA)
-    return {"ok": ok, "pole_disp": pole_disp, "kappa": kappa}
+    return {"ok": ok, "pole_disp": pole_disp, "kappa": kappa, "rmax": float(np.max(np.abs(p)))}
 
 
 def conditioning(order, cut, dt):
@@ -341,7 +345,8 @@ def _sinusoid(case, f=None):
              "after 1-2 calls of the same filter with cut-offs perturbed by 1e-9..24% on another signal; "
              "non-trivial = design passes the conditioning guard, so the gain is asserted",
         oracle="reference model: middle third == g(f) * x with g the closed-form squared magnitude of the bilinear-transformed "
-               "Butterworth filter in t = tan(pi f dt) (validated at import against scipy's zpk design), tolerance 2e-3 * A; "
+               "Butterworth filter in t = tan(pi f dt) (validated at import against scipy's zpk design), tolerance "
+               "min(2e-3, 1e-8 + 40 (u kappa + r_max^(n/3))) * A; "
                "length, npts, dt preserved; list / tuple / ndarray cut-offs give array_equal outputs; differential: the call under "
                "the ambient print state / after similar calls == the same call under the default print state (exact)",
         require={"band=pass": 0.35, "band=transition": 0.35, "band=stop": 0.35, "gibbs=None": 0.08, "gibbs=start": 0.05,
@@ -395,7 +400,12 @@ def butter_gain(case, ctx):
             y = _filtered(ctx, x, dt, cut_arg, kwargs, no_cut=no_cut)
         lo, hi = n // 3, (2 * n) // 3
         ctx.finite(y[lo:hi], "filtered sinusoid (middle third)")
-        ctx.close(y[lo:hi], g * x[lo:hi], GAIN_TOL * amp,
+        # design-aware tolerance: rounding of the (b, a) coefficients (first-order bound u*kappa) + what is left of the edge
+        # transients after lo = n/3 samples (slowest pole radius ^ lo); never looser than the flat 2e-3
+        tol_gain = min(GAIN_TOL, GAIN_FLOOR + GAIN_FACTOR * (U * cond["kappa"] + cond["rmax"] ** lo))
+        ctx.notes["tol_gain"] = tol_gain
+        ctx.cls("tol<1e-6" if tol_gain < 1e-6 else ("tol<1e-4" if tol_gain < 1e-4 else "tol>=1e-4"))
+        ctx.close(y[lo:hi], g * x[lo:hi], tol_gain * amp,
                   "middle third of the filtered sinusoid vs g(f)*x (g=%.6g, order %d, cut-offs %r Hz, f=%r Hz, dt=%r, remove_gibbs=%r)" % (
                       g, order, cut, f, dt, gibbs))
         if k > 0:
